@@ -117,7 +117,8 @@ def run(rep: Report, ctx: Any) -> str:
     it, ji = ctx.flow
     rep.rule("R12.1", "no observation of the order of a set reaches generated output: sorted / singleton / order-insensitive / "
                       "diagnostics-only (frozen); no environment-dependent source is used")
-    rep.rule("R12.2", "aggregates are emitted through a sort; worklist rounds take errors from the last round only, and what decides about "
+    rep.rule("R12.2", "aggregates are emitted through a sort; worklist rounds keep what they record for a re-queued item (its error, the re-queue "
+                      "entry) from the last round only, and what decides about "
                       "another round is bound monotonically per item (one constant, or accumulated from itself) and can be moved by an item; "
                       "suffix tests on reference paths are separator-anchored; updates of already registered classes are monotone")
     rep.rule("R12.3", "a field that is filled in after construction (declared Optional, written outside the constructors) of a class whose "
@@ -135,6 +136,14 @@ def run(rep: Report, ctx: Any) -> str:
                       "it only the registration key and the compared fields, and where the comparison ignores order (dict / set equality) "
                       "every observation of that field's order is sorted - otherwise the declaration that happens to be registered last "
                       "decides the output")
+    rep.rule("R12.8", "the traversal of a map of the document (a loop whose items are document objects taken from a dict - the dict, its "
+                      "items() / values(), directly or through a local) does not ask what it has collected from the items before: a local "
+                      "that starts as an empty container or a number outside the loop and is filled inside it (by the loop body or by a "
+                      "function that is handed it) is not read back there as a fact - membership, length / count / truth, a stored "
+                      "number or text, a traversal, the counter itself - other than to create the entry of a key (get-or-create) or "
+                      "to report a diagnostic: such a fact is the position of the item in the map, and what is made from it (a "
+                      "numbered name, a skipped duplicate) changes when the map is permuted.  The threaded registries (Schemas / "
+                      "Parameters: parameters, not such locals) are the business of R12.2 / R12.7")
     rep.assumptions.append("dict iteration order is insertion order (language guarantee); only set/frozenset order is hash-dependent")
     rep.assumptions.append("R12.3: the objects passed to Template.render() are the registered instances themselves and rendering starts after "
                            "parsing has finished, so every late write has happened on them")
@@ -275,6 +284,7 @@ def run(rep: Report, ctx: Any) -> str:
     _template_module_state(rep, ctx)
     _document_read_only(rep, ctx)
     _redeclared_classes(rep, ctx)
+    _arrival_order(rep, ctx)
     # R12.7: nobody registers into the threaded registries (Schemas / Parameters) in place - the retry rounds go back to the state of
     # before a failed attempt, which only works on evolved copies.  Stated once for C08 / C12 / C20 in the shared module inplace.py
     # (written on the C08 branch); the clause is claimed here as soon as that module is part of the tree
@@ -360,11 +370,13 @@ def _bindings(st: ast.stmt) -> list[tuple[str, ast.AST | None]]:
 
 def _round_loops(rep: Report, ix: Any) -> None:
     """worklist rounds, found by role: a loop in which a local is traversed item by item (by the loop itself or by a private helper it
-    is handed to) and re-bound, inside the loop, to what was collected for the next round.  Whatever records an error on a path that
-    also re-queues the item must start empty in every round: an item that fails in one round and succeeds in a later one must not
-    leave its error behind, or the diagnostics depend on the order of definitions.  Indifferent to how the loop is driven (flag,
-    `while True` + break, counter), to continue versus else, to parallel lists versus one list of records, and to a round or an item
-    step that lives in a helper."""
+    is handed to) and re-bound, inside the loop, to what was collected for the next round.  Whatever is put into a list on a path that
+    also re-queues the item (the error of the failed attempt, a record that carries it, the entry of the next work list) is the record
+    of one attempt, and the list must start empty in every round: an item that fails in one round and succeeds in a later one must
+    not leave its error behind, or the diagnostics depend on the order of definitions.  What the record is made of does not matter
+    (an error object, a tuple / named record around it, an error class that is a parameter).  Indifferent to how the loop is driven
+    (flag, `while True` + break, counter), to continue versus else, to parallel lists versus one list of records from which the next
+    work list is derived, and to a round or an item step that lives in a helper."""
     from ..astutil import cfg_of, enclosing_loop_body, region
 
     cfgs: dict[str, Any] = {}
@@ -458,13 +470,14 @@ def _round_loops(rep: Report, ix: Any) -> None:
                 return b in cfg.reachable_from(a, avoid=lambda n: n is la and la is not None) or \
                     a in cfg.reachable_from(b, avoid=lambda n: n is lb and lb is not None)
 
+            # what is recorded for an item on the way on which it is re-queued - the error of the failed attempt, a record that holds it,
+            # the entry in the next work list itself - is a record of one attempt.  How many attempts an item needs depends on the order
+            # of definitions, so every list such a record goes into starts empty in every round.  (Error records first: they give the
+            # obligation its key.)
             stale: dict[tuple[str, str], tuple[Any, ast.stmt, str, ast.AST]] = {}
-            for m in grows:
-                g, st, recv, payload = m
-                if not (constructs_error(payload) or names_in_load(payload) & errs[g.qual]):
-                    continue
-                if any(r[0] is g and on_one_path(g, st, r[1]) for r in requeues):
-                    stale.setdefault(same.find((g.qual, recv)), m)
+            with_requeue = [m for m in grows if any(r[0] is m[0] and on_one_path(m[0], m[1], r[1]) for r in requeues)]
+            for m in sorted(with_requeue, key=lambda m: not (constructs_error(m[3]) or bool(names_in_load(m[3]) & errs[m[0].qual]))):
+                stale.setdefault(same.find((m[0].qual, m[2])), m)
             changed = True
             while changed:  # what a per-round error list is poured into carries the same obligation
                 changed = False
@@ -475,9 +488,6 @@ def _round_loops(rep: Report, ix: Any) -> None:
                         stale[c] = m
                         changed = True
             n_driven[0] += _round_progress(rep, f, loop, scope, same, by_name, alias_calls)
-            rep.check(bool(stale), "R12.2", f"{short(f)}::round-structure", "the worklist loop re-queues items but records no error "
-                      "together with the re-queue", where(f, loop), lhs=[sorted(work), sorted({m[2] for m in requeues})],
-                      rhs="work list re-bound per round, errors recorded with the re-queue")
             funcs = {g.qual: g for g, _ in scope}
             f_stmts = scope[0][1]
             in_loop = {id(s) for s in f_stmts}
@@ -522,8 +532,8 @@ def _round_loops(rep: Report, ix: Any) -> None:
                         break
                 g, st, recv, payload = m
                 rep.check(not why, "R12.2", f"{short(f)}::round-errors[{role_anon(payload, g.node)[:60]}]",
-                          f"{why}: it accumulates the errors of items that are re-queued, so whether an error is reported depends on the "
-                          "order of definitions", where(g, st), lhs=recv, rhs="starts empty in every round")
+                          f"{why}: it accumulates what is recorded for items that are re-queued (their errors, their entries for the next round), "
+                          "so what is reported depends on how many rounds an item needed, that is on the order of definitions", where(g, st), lhs=recv, rhs="starts empty in every round")
     rep.floor("progress_loops", n_rounds, 1)
     rep.floor("round_loops_driven_by_what_the_items_did", n_driven[0], 1)
 
@@ -1023,6 +1033,8 @@ def _late_filled_fields(rep: Report, ctx: Any) -> None:
     for tname, ti in sorted(ctx.jinja.templates.items()):
         alias = _template_aliases(ti, nodes)
         bodies = {"<top>": ti.tree.body, **{m.name: m.body for m in ti.tree.find_all(nodes.Macro)}}
+        scope_params = {m.name: {a.name for a in m.args} for m in ti.tree.find_all(nodes.Macro)}
+        local_names = _raw_bound_names(ctx.jinja, ti, nodes)
         for mname, body in bodies.items():
             subj = table[(tname, mname)]
             for g in _own_template_nodes(body, nodes):
@@ -1035,7 +1047,7 @@ def _late_filled_fields(rep: Report, ctx: Any) -> None:
                 if not owners:
                     continue
                 # one construct, one key: a read through a template-local name for an access path is the read of that path
-                key = f"{tname}::{mname}::{_unfolded_text(g, alias, nodes)}"
+                key = f"{tname}::{_key_scope(mname, g, scope_params, local_names, alias, nodes)}::{_unfolded_text(g, alias, nodes)}"
                 if key in seen:
                     continue
                 seen.add(key)
@@ -1049,6 +1061,26 @@ def _late_filled_fields(rep: Report, ctx: Any) -> None:
                           "of definitions in the document", where=f"{PKG}/templates/{tname}:{getattr(g, 'lineno', 0)}",
                           lhs=expr_text(base), rhs=f"a name for an object handed to render(), here: {sorted(subj)}")
     rep.floor("template_reads_of_late_filled_fields", len(seen), 5)
+
+
+def _key_scope(mname: str, e: Any, scope_params: dict[str, set[str]], local_names: set[str], alias: dict[int, Any], nodes: Any) -> str:
+    """the scope under which a template expression is keyed.  An access path whose root is a name of the render context - not a parameter
+    of the macro it is written in, not bound by the template itself (set / for / with) - denotes the same object in every scope of the
+    template: it is one construct wherever it is written, at the top level or in a macro the top level calls.  Everything else is
+    keyed by the macro whose parameters give it its meaning."""
+    if mname == "<top>":
+        return mname
+    root = e
+    for _ in range(64):
+        root = _resolve_alias(root, alias)
+        if isinstance(root, (nodes.Getattr, nodes.Getitem, nodes.Call, nodes.Filter)) and root.node is not None:
+            root = root.node
+        else:
+            break
+    if isinstance(root, nodes.Name) and root.name.isidentifier() and root.name not in scope_params.get(mname, set()) and \
+            root.name not in local_names:
+        return "<top>"
+    return mname
 
 
 def _fresh_object(target: ast.AST, f: Any, ix: Any) -> bool:
@@ -2040,6 +2072,8 @@ def _redeclared_classes(rep: Report, ctx: Any) -> None:
                          for q in av.types if q in compared}
         scopes: dict[str, list[Any]] = {"<top>": ti.tree.body}
         scopes.update({m.name: m.body for m in ti.tree.find_all(nodes.Macro)})
+        scope_params = {m.name: {a.name for a in m.args} for m in ti.tree.find_all(nodes.Macro)}
+        local_names = _raw_bound_names(ctx.jinja, ti, nodes)
         seen: set[str] = set()
         for mname, body in scopes.items():
             for g in _own_template_nodes(body, nodes):
@@ -2052,12 +2086,13 @@ def _redeclared_classes(rep: Report, ctx: Any) -> None:
                 if not owners:
                     continue
                 text = _unfolded_text(g, alias, nodes)
+                kscope = _key_scope(mname, g, scope_params, local_names, alias, nodes)
                 # (a) order of a field that is compared without regard to order
                 for q in owners:
                     if compared[q].get(g.attr):
                         for verdict, at in _order_fate(g, parent, ti.tree, nodes):
                             shown = at.iter if isinstance(at, nodes.For) else at
-                            key = f"{tname}::{mname}::order of {_unfolded_text(shown, alias, nodes) if isinstance(shown, nodes.Expr) else text}"
+                            key = f"{tname}::{kscope}::order of {_unfolded_text(shown, alias, nodes) if isinstance(shown, nodes.Expr) else text}"
                             if key in seen:
                                 continue
                             seen.add(key)
@@ -2082,7 +2117,7 @@ def _redeclared_classes(rep: Report, ctx: Any) -> None:
                         read = _self_reads(ix, c, g.attr)
                     else:
                         continue
-                    key = f"{tname}::{mname}::{text} of {c.name}"
+                    key = f"{tname}::{kscope}::{text} of {c.name}"
                     if key in seen:
                         continue
                     seen.add(key)
@@ -2096,3 +2131,244 @@ def _redeclared_classes(rep: Report, ctx: Any) -> None:
                               where=f"{PKG}/templates/{tname}:{getattr(g, 'lineno', 0)}", lhs=sorted(read), rhs=sorted(allowed))
     rep.floor("template_reads_of_redeclarable_classes", n_reads, 4)
 
+
+
+# ---- R12.8 arrival order in the traversal of a document map ---------------------------------------------------------------------
+FRESH_CONTAINERS = ("dict", "list", "set", "defaultdict", "Counter", "OrderedDict", "deque")
+PURE_WRITERS = ("append", "extend", "insert", "add", "update", "setdefault", "appendleft", "extendleft")
+FACT_METHODS = ("get", "pop", "popitem", "index", "count", "keys", "values", "items", "most_common", "copy", "__contains__", "__len__",
+                "__getitem__")
+FACT_BUILTINS = ("len", "bool", "any", "all", "sum", "min", "max", "next", "iter", "sorted", "list", "tuple", "set", "enumerate", "dict")
+SCALARS = {"int", "str", "bool", "float", "None"}
+
+
+def _fresh_state(v: ast.AST | None) -> str:
+    """'container' / 'number' when v creates an empty container or is an integer constant, else ''"""
+    if isinstance(v, (ast.Dict, ast.List, ast.Set)) and not (getattr(v, "keys", None) or getattr(v, "elts", None)):
+        return "container"
+    if isinstance(v, ast.Call) and call_name(v).rsplit(".", 1)[-1] in FRESH_CONTAINERS and \
+            all(isinstance(a, (ast.Name, ast.Attribute, ast.Lambda)) for a in v.args):  # defaultdict(int), defaultdict(list)
+        return "container"
+    if isinstance(v, ast.Constant) and type(v.value) is int:
+        return "number"
+    return ""
+
+
+def _error_only(stmts: list[ast.stmt], errs: set[str]) -> bool:
+    """the branch does nothing but report: builds / records / returns / raises an error and leaves"""
+    if not stmts:
+        return False
+    said = False
+    for st in stmts:
+        if isinstance(st, (ast.Continue, ast.Break, ast.Pass)):
+            continue
+        if isinstance(st, ast.Raise):
+            said = True
+        elif isinstance(st, ast.Return) and st.value is not None and (constructs_error(st.value) or names_in_load(st.value) & errs):
+            said = True
+        elif isinstance(st, (ast.Assign, ast.AnnAssign)) and constructs_error(st.value):
+            said = True
+        elif isinstance(st, ast.Expr) and isinstance(st.value, ast.Call) and isinstance(st.value.func, ast.Attribute) and \
+                st.value.func.attr in LIST_GROW and st.value.args and \
+                (constructs_error(st.value.args[-1]) or names_in_load(st.value.args[-1]) & errs):
+            said = True
+        elif isinstance(st, (ast.For, ast.AsyncFor)) and _error_only(st.body, errs):
+            said = True
+        else:
+            return False
+    return said
+
+
+def _facts_read(g: Any, body: list[ast.stmt], names: dict[str, str], types_of: Any, call_targets: Any, depth: int = 2) -> list[tuple[ast.AST, str]]:
+    """(node, what is asked) for every place below `body` (statements of function g) where one of `names` (name -> container / number)
+    is asked about its content.  Writes, get-or-create and diagnostics-only tests are no questions."""
+    parent = {id(ch): p_ for st in body for p_ in ast.walk(st) for ch in ast.iter_child_nodes(p_)}
+    errs = error_names(g.node)
+    out: list[tuple[ast.AST, str]] = []
+
+    def test_owner(n: ast.AST) -> ast.AST | None:
+        """the if / while / conditional expression whose test n is part of"""
+        ch = n
+        while id(ch) in parent:
+            par = parent[id(ch)]
+            if isinstance(par, (ast.If, ast.While, ast.IfExp)) and par.test is ch:
+                return par
+            if not isinstance(par, (ast.BoolOp, ast.UnaryOp, ast.Compare, ast.NamedExpr)):
+                return None
+            ch = par
+        return None
+
+    def excused(n: ast.AST, name: str) -> bool:
+        """the question decides only about a diagnostic, or about creating the entry that is missing (get-or-create)"""
+        own = test_owner(n)
+        if not isinstance(own, ast.If):
+            return False
+        for branch in (own.body, own.orelse):
+            if _error_only(branch, errs):
+                return True
+        if not own.orelse and all(_stores_into(st, name) for st in own.body):
+            return True
+        return False
+
+    for st in body:
+        for n in ast.walk(st):
+            if not (isinstance(n, ast.Name) and isinstance(n.ctx, ast.Load) and n.id in names):
+                continue
+            par = parent.get(id(n))
+            gp = parent.get(id(par)) if par is not None else None
+            what = ""
+            if names[n.id] == "number":
+                if isinstance(par, ast.AugAssign) or (isinstance(gp, (ast.Assign, ast.AugAssign)) and isinstance(par, ast.BinOp) and
+                                                      any(isinstance(t, ast.Name) and t.id == n.id for t in getattr(gp, "targets", [gp]) if True)):
+                    continue  # n = n + 1
+                what = "the counter"
+            elif isinstance(par, ast.Attribute) and isinstance(gp, ast.Call) and gp.func is par:
+                if par.attr in PURE_WRITERS:
+                    continue
+                if par.attr in FACT_METHODS:
+                    if par.attr in ("get", "pop", "__getitem__"):
+                        t = types_of(gp) - {"Any"}
+                        dflt = gp.args[1] if len(gp.args) > 1 else None
+                        scalar = (bool(t) and t <= SCALARS and t != {"None"}) or (isinstance(dflt, ast.Constant) and type(dflt.value) in (int, str, bool))
+                        if not scalar:
+                            continue  # the entry of a key (an object): keyed, not positional
+                    what = f".{par.attr}()"
+            elif isinstance(par, ast.Compare) and any(c is n for c in par.comparators) and any(isinstance(o, (ast.In, ast.NotIn)) for o in par.ops):
+                what = "membership"
+            elif isinstance(par, ast.Call) and n in par.args and call_name(par) in FACT_BUILTINS:
+                what = f"{call_name(par)}()"
+            elif isinstance(par, (ast.For, ast.AsyncFor, ast.comprehension)) and par.iter is n:
+                what = "traversal"
+            elif isinstance(par, ast.Subscript) and par.value is n and isinstance(par.ctx, ast.Load):
+                t = types_of(par) - {"Any"}
+                if bool(t) and t <= SCALARS and t != {"None"} and not (isinstance(gp, ast.AugAssign) and gp.target is par):
+                    what = "[..]"
+            elif test_owner(n) is not None and isinstance(par, (ast.If, ast.While, ast.IfExp, ast.BoolOp, ast.UnaryOp)):
+                what = "truth"
+            elif isinstance(par, (ast.Call, ast.keyword)) and depth > 0:
+                c = par if isinstance(par, ast.Call) else gp
+                if isinstance(c, ast.Call) and not (isinstance(par, ast.Call) and par.func is n):
+                    for h in call_targets(c, g):
+                        for p_, a in _bind_args(c, h):
+                            if a is n:
+                                inner = _facts_read(h, h.node.body, {p_: names[n.id]}, types_of, call_targets, depth - 1)
+                                if inner:
+                                    what = f"{h.name}(): {inner[0][1]}"
+            if what and not excused(n, n.id):
+                out.append((n, what))
+    return out
+
+
+def _stores_into(st: ast.stmt, name: str) -> bool:
+    """the statement only puts something into the container `name`"""
+    if isinstance(st, ast.Assign):
+        return all(isinstance(t, ast.Subscript) and isinstance(t.value, ast.Name) and t.value.id == name for t in st.targets)
+    return isinstance(st, ast.Expr) and isinstance(st.value, ast.Call) and isinstance(st.value.func, ast.Attribute) and \
+        st.value.func.attr in PURE_WRITERS and isinstance(st.value.func.value, ast.Name) and st.value.func.value.id == name
+
+
+def _arrival_order(rep: Report, ctx: Any) -> None:
+    ix = ctx.py
+    it, _ = ctx.flow
+    types_of, call_targets = _interp_views(it)
+    _, summaries = _doc_flow_engine(ix, types_of, call_targets)
+    n_loops = n_state = 0
+    for f in ix.all_functions:
+        if f.module.name.startswith(DOC_PKG):
+            continue
+        lc = Locals(f.node)
+        for loop in [n for n in _own_nodes(f.node) if isinstance(n, (ast.For, ast.AsyncFor))]:
+            if not _map_traversal(loop, lc, types_of):
+                continue
+            n_loops += 1
+            inside = {id(s) for st in [*loop.body, *loop.orelse] for s in ast.walk(st)}
+            # -- what the loop carries from one item to the next: created outside, filled inside
+            carried: dict[str, str] = {}
+            for name, ds in lc.defs.items():
+                outer = [_fresh_state(v) for k, st, v in ds if id(st) not in inside and st is not loop and k == "assign"]
+                if not outer or not all(outer) or len(set(outer)) != 1:
+                    continue
+                if _filled_in(name, [*loop.body, *loop.orelse], f, call_targets, summaries):
+                    carried[name] = outer[0]
+            for name in sorted(carried):
+                n_state += 1
+                facts = _facts_read(f, [*loop.body, *loop.orelse], {name: carried[name]}, types_of, call_targets)
+                key = f"{short(f)}::for {role_anon(loop.iter, f.node)}::state {_state_role(name, lc, f)}"
+                at = facts[0][0] if facts else loop
+                rep.check(not facts, "R12.8", key,
+                          f"the loop over the document map `{norm(loop.iter)}` asks `{name}`, which it fills itself from the items visited so "
+                          f"far, about its content ({', '.join(sorted({w for _, w in facts}))}): the answer is the position of the item in the "
+                          "map, so what is made from it (a numbered name, a duplicate that is skipped) changes when the map is permuted",
+                          where(f, at), lhs=sorted({w for _, w in facts}), rhs="writes, get-or-create of a key's entry, diagnostics only")
+    rep.floor("traversals_of_document_maps", n_loops, 2)
+    rep.indexed["state_carried_through_document_map_traversals"] = n_state
+
+
+def _state_role(name: str, lc: Locals, f: Any) -> str:
+    """a carried local by what it is filled with, not by its spelling"""
+    puts = []
+    for n in ast.walk(f.node):
+        if isinstance(n, ast.Call) and isinstance(n.func, ast.Attribute) and isinstance(n.func.value, ast.Name) and n.func.value.id == name and \
+                n.func.attr in PURE_WRITERS:
+            puts.append(f"{n.func.attr}({', '.join(role_anon(a, f.node) for a in n.args)})")
+        elif isinstance(n, ast.Subscript) and isinstance(n.ctx, ast.Store) and isinstance(n.value, ast.Name) and n.value.id == name:
+            puts.append(f"[{role_anon(n.slice, f.node)}]=")
+        elif isinstance(n, ast.AugAssign) and isinstance(n.target, ast.Name) and n.target.id == name:
+            puts.append(f"{type(n.op).__name__}=")
+    return sorted(puts)[0][:70] if puts else "handed to a function that fills it"
+
+
+def _filled_in(name: str, body: list[ast.stmt], f: Any, call_targets: Any, summaries: dict[str, "_Summary"]) -> bool:
+    for st in body:
+        for n in ast.walk(st):
+            if isinstance(n, ast.Call) and isinstance(n.func, ast.Attribute) and n.func.attr in CONTAINER_MUTATORS and \
+                    isinstance(n.func.value, ast.Name) and n.func.value.id == name:
+                return True
+            if isinstance(n, ast.Subscript) and isinstance(n.ctx, (ast.Store, ast.Del)) and isinstance(n.value, ast.Name) and n.value.id == name:
+                return True
+            if isinstance(n, ast.Subscript) and isinstance(n.value, ast.Name) and n.value.id == name:
+                continue
+            if isinstance(n, ast.AugAssign) and ((isinstance(n.target, ast.Name) and n.target.id == name) or
+                                                 (isinstance(n.target, ast.Subscript) and isinstance(n.target.value, ast.Name) and n.target.value.id == name)):
+                return True
+            if isinstance(n, ast.Assign) and any(isinstance(t, ast.Name) and t.id == name for t in n.targets) and name in names_in_load(n.value):
+                return True  # n = n + 1
+            if isinstance(n, ast.Call):
+                for h in call_targets(n, f):
+                    sm = summaries.get(h.qual)
+                    for p_, a in _bind_args(n, h):
+                        if isinstance(a, ast.Name) and a.id == name and sm is not None and p_ in sm.writes_param:
+                            return True
+    return False
+
+
+def _map_traversal(loop: ast.AST, lc: Locals, types_of: Any, depth: int = 3) -> bool:
+    """the loop takes document objects out of a dict: over the dict / its items() / values(), directly, through `or` / conditional arms or
+    through a local bound to one of these (sorted(..) gives an order of its own: not a traversal of the map)"""
+    def dictish(e: ast.AST | None, d: int) -> bool:
+        if e is None:
+            return False
+        if isinstance(e, ast.Call) and isinstance(e.func, ast.Attribute) and e.func.attr in ("items", "values", "keys") and not e.args:
+            return dictish(e.func.value, d) or "dict" in types_of(e.func.value)
+        if isinstance(e, ast.Call) and call_name(e) in ("list", "tuple", "iter", "enumerate", "reversed", "dict") and e.args:
+            return dictish(e.args[0], d)
+        if isinstance(e, ast.BoolOp):
+            return any(dictish(v, d) for v in e.values)
+        if isinstance(e, ast.IfExp):
+            return dictish(e.body, d) or dictish(e.orelse, d)
+        if isinstance(e, ast.Name):
+            if "dict" in types_of(e):
+                return True
+            return d > 0 and any(dictish(v, d - 1) for k, _, v in lc.defs.get(e.id, []) if k == "assign")
+        if isinstance(e, (ast.Attribute, ast.Subscript)):
+            return "dict" in types_of(e)
+        return False
+
+    if not dictish(loop.iter, depth):
+        return False
+    targets = {n.id for n in ast.walk(loop.target) if isinstance(n, ast.Name)}
+    for st in loop.body:
+        for n in ast.walk(st):
+            if isinstance(n, ast.Name) and n.id in targets and any(t.startswith(DOC_PKG + ".") for t in types_of(n)):
+                return True
+    return False
